@@ -24,7 +24,7 @@ Record zlike (A : arith) (S : Z) := {
   (* a multiplier compares equal to one exactly when it is one (also under the fuzzy Guarded comparison) *)
   r_eqv_one : forall a n, raw a = n * S -> eqv A a (of_int A 1) = (n =? 1);
   r_kmuldiv0 : forall a b c up, raw c = 0 -> kmuldiv A a b c up = Raise ZeroDivisionError;
-  r_eps : 0 <= raw (epsilon A)
+  r_eps : 1 <= raw (epsilon A)
 }.
 Arguments raw {A S}.
 
